@@ -16,14 +16,24 @@ for id in "$@"; do
   pkg=polytune
   if grep -q "^+++ b/crates/polytune-server-core" $src/patch.diff || grep -qs "polytune_server_core" $src/demo/*.rs; then pkg=polytune-server-core; fi
   demo=$(ls $src/demo/*.rs | head -1); name=$(basename $demo .rs)
+  flags=""; [ -f $src/confirm.flags ] && flags=$(cat $src/confirm.flags)
   if [ "$pkg" = "polytune" ]; then tdir=tests; else tdir=crates/$pkg/tests; mkdir -p $tdir; fi
-  cp $demo $tdir/$name.rs
+  if grep -q "in-crate" $src/demo/run.sh 2>/dev/null; then
+    # demonstration is a #[cfg(test)] module inside the crate
+    cp $demo src/mpc/$name.rs; printf '#[cfg(test)]\nmod %s;\n' $name >> src/mpc.rs
+    runit() { nice cargo test --offline -p polytune --lib c10_ -- --test-threads=2; }
+    cleanup() { rm -f src/mpc/$name.rs; }
+  else
+    cp $demo $tdir/$name.rs
+    runit() { nice cargo test --offline $flags -p $pkg --test $name -- --test-threads=2; }
+    cleanup() { rm -f $tdir/$name.rs; }
+  fi
   echo "== demo WITHOUT patch (expect pass)" >> $log
-  nice cargo test --offline -p $pkg --test $name -- --test-threads=2 >> $log 2>&1; rc0=$?
-  if ! git apply $src/patch.diff 2>>$log; then echo "RESULT id=$id patch does not apply" | tee -a $log; rm -f $tdir/$name.rs; continue; fi
+  runit >> $log 2>&1; rc0=$?
+  if ! git apply $src/patch.diff 2>>$log; then echo "RESULT id=$id patch does not apply" | tee -a $log; cleanup; continue; fi
   echo "== demo WITH patch (expect fail)" >> $log
-  nice cargo test --offline -p $pkg --test $name -- --test-threads=2 >> $log 2>&1; rc1=$?
-  rm -f $tdir/$name.rs
+  runit >> $log 2>&1; rc1=$?
+  cleanup
   echo "== existing tests WITH patch (expect pass)" >> $log
   nice cargo test --offline -p polytune --lib >> $log 2>&1; t1=$?
   nice cargo test --offline -p polytune --test protocol -- --skip eval_mixed_circuits --skip eval_garble_prg_3pc >> $log 2>&1; t2=$?
